@@ -52,6 +52,10 @@ pub enum OpKind {
     /// arrives with a graph of its own), the derivative handed to `Array::op` is the identity - the user's derivative
     /// is the one that counts
     CSte,
+    /// user-defined operation WITHOUT a derivative whose forward builds its result from raw values (a step / mask
+    /// function): 1 where the operand is positive, 0 elsewhere. Its result is a plain constant, whatever the operand's
+    /// tracking: a gate for the rest of the graph
+    CGate,
     /// `h.clone()`: another handle of the same array (same node, same gradient slot) with a copy of the flags it had
     /// at that moment and a life of its own afterwards
     CloneH,
@@ -105,6 +109,7 @@ impl OpKind {
             CNested => "custom_cube_nested".into(),
             CComp => "custom_composite".into(),
             CSte => "custom_ste_relu".into(),
+            CGate => "custom_gate_no_derivative".into(),
             CloneH => "clone".into(),
             CLibMul => "custom_mul_libderiv".into(),
             CLib4 => "custom_fma4_libderiv".into(),
@@ -142,6 +147,7 @@ impl OpKind {
             CNested => "custom_cube_nested",
             CComp => "custom_composite",
             CSte => "custom_ste_relu",
+            CGate => "custom_gate_no_derivative",
             CloneH => "clone",
             CLibMul => "custom_mul_libderiv",
             CLib4 => "custom_fma4_libderiv",
@@ -151,6 +157,10 @@ impl OpKind {
     pub fn forces_tracking(&self) -> bool {
         matches!(self, OpKind::CMulF | OpKind::CNegF)
     }
+    /// tracking flag of the result given whether any operand is tracked at the moment of use
+    pub fn result_tracked(&self, any_operand_tracked: bool) -> bool {
+        (any_operand_tracked || self.forces_tracking()) && !matches!(self, OpKind::CGate)
+    }
     pub fn is_custom(&self) -> bool {
         matches!(self, OpKind::CMul | OpKind::CAdd | OpKind::CNeg | OpKind::CFma | OpKind::CCube | OpKind::CMulF | OpKind::CNegF | OpKind::CNested | OpKind::CLibMul | OpKind::CLib4 | OpKind::CSte)
     }
@@ -159,7 +169,7 @@ impl OpKind {
         use OpKind::*;
         match self {
             Add | Sub | Mul | Neg | Relu | Sum(_) | Reshape(_) | Matmul { .. } | Conv { .. } | CMul | CAdd | CNeg
-            | CFma | CCube | CMulF | CNegF | CNested | CComp | CLibMul | CLib4 | CSte | CloneH => true,
+            | CFma | CCube | CMulF | CNegF | CNested | CComp | CLibMul | CLib4 | CSte | CGate | CloneH => true,
             Scale(s) | Axpy(s) => s.fract() == 0.0,
             _ => false,
         }
@@ -219,6 +229,7 @@ impl OpKind {
             }
             CCube | CNested => a[0].map(|x| x * x * x),
             CSte => a[0].map(|x| x.ste_relu()),
+            CGate => a[0].map(|x| if x.val() > 0.0 { S::c(1.0) } else { S::zero() }),
             CloneH => a[0].clone(),
             CComp => same(a[0], a[1])?.zip(a[1], |x, y| x * y)?.zip(a[0], |p, x| p + x)?,
             CLibMul => same(a[0], a[1])?.zip(a[1], |x, y| x * y)?,
@@ -263,6 +274,12 @@ impl OpKind {
             CloneH => a[0].clone(),
             CComp => {
                 let f: ForwardOp = Rc::new(|x: &[&Array]| &(x[0] * x[1]) + x[0]);
+                Array::op(a, f, None)
+            }
+            CGate => {
+                let f: ForwardOp = Rc::new(|x: &[&Array]| {
+                    Array::from((x[0].dimensions().to_vec(), x[0].values().iter().map(|v| if *v > 0.0 { 1.0 } else { 0.0 }).collect::<Vec<Float>>()))
+                });
                 Array::op(a, f, None)
             }
         }
@@ -640,7 +657,7 @@ pub fn eval_ref<S: Sc>(
                     args.iter().map(|a| if flags[*a] { v[*a].clone() } else { v[*a].map(|x| x.detach()) }).collect();
                 let refs: Vec<&T<S>> = detached.iter().collect();
                 let mut r = kind.apply_ref(&refs)?;
-                let mut f = args.iter().any(|a| flags[*a]) || kind.forces_tracking();
+                let mut f = kind.result_tracked(args.iter().any(|a| flags[*a]));
                 if kind.is_alias() {
                     f = flags[args[0]];
                     r = v[args[0]].clone();
@@ -1056,7 +1073,7 @@ pub fn current_flags(p: &Program) -> Vec<bool> {
                 for (h, on) in pre {
                     flags[*h] = *on;
                 }
-                let mut f = args.iter().any(|a| flags[*a]) || kind.forces_tracking();
+                let mut f = kind.result_tracked(args.iter().any(|a| flags[*a]));
                 if kind.is_alias() {
                     f = flags[args[0]];
                 }
@@ -1163,6 +1180,10 @@ pub fn try_add_op(r: &mut Rng, cfg: &GenCfg, st: &mut GenState) {
             cands.push((OpKind::CNegF, vec![a]));
             cands.push((OpKind::CNested, vec![a]));
             cands.push((OpKind::CSte, vec![a]));
+            // a gate is only taken where both float widths agree on the sign of every element
+            if cfg.exact_only || st.refv[a].v.iter().all(|x| x.abs() > 0.05) {
+                cands.push((OpKind::CGate, vec![a]));
+            }
             if samea {
                 cands.push((OpKind::CMulF, vec![a, b]));
                 cands.push((OpKind::CComp, vec![a, b]));
